@@ -69,6 +69,34 @@ func vh_C03_ids_distinct() {
 	vAssert(a != b && b != d && a != d, "consecutive ids are pairwise distinct")
 }
 
+// the same with the callers in different goroutines: every interleaving of the
+// atomic operations inside nextID (added after seeded change C03-c)
+func vh_C03_ids_distinct_conc() {
+	c := &Client{}
+	c.nextid = vNondetU32()
+	n := 2
+	if vThorough() {
+		n = 3
+	}
+	ids := make([][2]uint32, n)
+	var wg sync.WaitGroup
+	for g := 0; g < n; g++ {
+		g := g
+		wg.Add(1)
+		go func() {
+			defer wg.Done()
+			ids[g][0] = c.nextID()
+			ids[g][1] = c.nextID()
+		}()
+	}
+	wg.Wait()
+	for i := 0; i < 2*n; i++ {
+		for j := i + 1; j < 2*n; j++ {
+			vAssert(ids[i/2][i%2] != ids[j/2][j%2], "ids handed to concurrent callers are pairwise distinct")
+		}
+	}
+}
+
 // ---- L2: two callers, the real recv loop, a peer that answers the two
 // outstanding requests in either order ----
 
